@@ -195,6 +195,25 @@ func (e *Engine) specType(s string, pkg *types.Package) (types.Type, string) {
 	case "error":
 		return types.Universe.Lookup("error").Type(), sIface
 	}
+	if strings.HasPrefix(s, "TP_") {
+		e.g.decl("sort "+s, "(declare-sort "+s+" 0)")
+		e.g.tpSorts[s] = true
+		// find a type parameter of that name on a generic type of the package, to have a Go type for it
+		if pkg != nil {
+			for _, n := range pkg.Scope().Names() {
+				if tn, ok := pkg.Scope().Lookup(n).(*types.TypeName); ok {
+					if named, ok := tn.Type().(*types.Named); ok && named.TypeParams() != nil {
+						for i := 0; i < named.TypeParams().Len(); i++ {
+							if named.TypeParams().At(i).Obj().Name() == s[3:] {
+								return named.TypeParams().At(i), s
+							}
+						}
+					}
+				}
+			}
+		}
+		return nil, s
+	}
 	if strings.HasPrefix(s, "set[") && strings.HasSuffix(s, "]") {
 		_, ks := e.specType(s[4:len(s)-1], pkg)
 		return nil, "(Array " + ks + " Bool)"
@@ -544,6 +563,7 @@ func (e *Engine) ensureAxioms() {
 	// heaps read by spec functions are universally quantified in axioms
 	type hv struct{ name, sort, key string }
 	var hvs []hv
+	st2 := &State{guard: "true", cells: map[*Cell]Val{}, heap: map[string]string{}, top: "0"}
 	for _, k := range sortedKeys(e.g.specFns) {
 		f := e.g.specFns[k]
 		e.resolveReads(f)
@@ -553,11 +573,14 @@ func (e *Engine) ensureAxioms() {
 				st.heap[h] = n
 				e.axVC.heapSorts[h] = f.HeapSorts[i]
 				hvs = append(hvs, hv{n, f.HeapSorts[i], h})
+				n2 := fmt.Sprintf("axg%d", len(hvs))
+				st2.heap[h] = n2
+				hvs = append(hvs, hv{n2, f.HeapSorts[i], h})
 			}
 		}
 	}
 	for _, ax := range e.axioms {
-		env := &SpecEnv{a: e.axAct, vc: e.axVC, eng: e, st: st, vars: map[string]Val{}, pkg: e.pkgByPath[ax.Pkg]}
+		env := &SpecEnv{a: e.axAct, vc: e.axVC, eng: e, st: st, other: st2, vars: map[string]Val{}, pkg: e.pkgByPath[ax.Pkg]}
 		s, err := env.evalBool(ax.Expr)
 		if err != nil {
 			e.loadErrs = append(e.loadErrs, fmt.Sprintf("%s: axiom error: %v", ax.File, err))
@@ -715,6 +738,18 @@ func (e *Engine) findFunc(key string) *ssa.Function {
 		case 2:
 			if tn, ok := sp.Members[parts[0]].(*ssa.Type); ok {
 				t := tn.Type()
+				if named, isNamed := t.(*types.Named); isNamed {
+					for i := 0; i < named.NumMethods(); i++ {
+						if named.Method(i).Name() == parts[1] {
+							if f := e.prog.FuncValue(named.Method(i)); f != nil {
+								fn = f
+							}
+						}
+					}
+				}
+				if fn != nil {
+					break
+				}
 				for _, tt := range []types.Type{t, types.NewPointer(t)} {
 					ms := e.prog.MethodSets.MethodSet(tt)
 					for i := 0; i < ms.Len(); i++ {
@@ -866,6 +901,9 @@ func (e *Engine) verifyFn(fn *ssa.Function, con *Contract) *VC {
 
 func (a *Act) paramFacts(st *State, v Val, nonNil bool) {
 	if v.T == nil {
+		return
+	}
+	if _, isTP := isTypeParam(v.T); isTP {
 		return
 	}
 	vc := a.vc
